@@ -1,7 +1,8 @@
 #!/bin/bash
-# usage: runmuts.sh <listfile>   lines: <patch> <ID> [<ID>...]    appends to /verif/seeded/RESULTS.txt
+# usage: runmuts.sh <listfile> [<results file>]   lines: <patch> <ID> [<ID>...]    appends to /verif/seeded/RESULTS.txt
+OUT=${2:-/verif/seeded/RESULTS.txt}
 while read -r patch ids; do
   [ -z "$patch" ] && continue
-  echo "### $patch :: $ids" >> /verif/seeded/RESULTS.txt
-  /verif/tools/trymut.sh $patch $ids 2>&1 | grep -E "^== |^MACHINERY|^INCONCLUSIVE" >> /verif/seeded/RESULTS.txt
+  echo "### $patch :: $ids" >> "$OUT"
+  /verif/tools/trymut.sh $patch $ids 2>&1 | grep -E "^== |^MACHINERY|^INCONCLUSIVE" >> "$OUT"
 done < "$1"
